@@ -97,6 +97,9 @@ let world = ref { w_fs = empty_fs; w_counter = N0; w_loads = [] }
 let draws : n list ref = ref []
 let shard_draws : n list ref = ref []
 let seq = ref 0
+let obuf = ref (Buffer.create 65536)
+let pf fmt = Printf.bprintf !obuf fmt
+let flush_obuf () = print_string (Buffer.contents !obuf); Buffer.clear !obuf
 let env0 = { e_gran = z_of_int 1; e_atime = Relatime; e_order = None }
 
 let fdpath (f : fs) (d : nat) : string =
@@ -112,7 +115,7 @@ let rtail (r : res) : string =
 (* Print one event in shim syntax.  [before] is the fs before the call (to resolve fd paths). *)
 let print_event (before : fs) (ev : event) =
   incr seq;
-  let p = Printf.printf in
+  let p fmt = Printf.bprintf !obuf fmt in
   match ev with
   | EvNow t -> p "%d 0 clock %s\n" !seq (ts t)
   | EvTrigger (w, f) -> p "# trigger %s %b\n" (string_of_n w) f
@@ -166,6 +169,41 @@ let print_events (start : world) (o : oracle) (evs : event list) =
       | EvNow t -> f := tick !f t
       | _ -> ()) evs
 
+
+(* ---- interleaved participants (par blocks) ----
+   Each participant's lines are interpreted by its own system thread; exactly one
+   thread runs at a time.  A thread keeps the turn from the moment [wait_turn]
+   returns until it calls [wait_turn] again (or ends), so everything it does in
+   between is one atomic scheduling slot.  The slot contents are the extracted
+   Coq functions [settle] and [slot] (Conc/Pool.v). *)
+exception Abort_par
+type part = { mutable p_counter : n; mutable p_loads : ((n * n) * n) list; mutable p_draws : n list; mutable p_shards : n list;
+              mutable p_seq : int; p_buf : Buffer.t; mutable p_want : string; mutable p_done : bool }
+let par_on = ref false
+let par_me : int ref = ref (-1)          (* participant holding the turn *)
+let parts : part array ref = ref [||]
+let pm = Mutex.create ()
+let pc = Condition.create ()
+let turn = ref (-1)
+let par_abort = ref false
+let save_part i =
+  let p = !parts.(i) in
+  p.p_counter <- !world.w_counter; p.p_loads <- !world.w_loads; p.p_draws <- !draws; p.p_shards <- !shard_draws; p.p_seq <- !seq
+let load_part i =
+  let p = !parts.(i) in
+  world := { !world with w_counter = p.p_counter; w_loads = p.p_loads }; draws := p.p_draws; shard_draws := p.p_shards;
+  seq := p.p_seq; obuf := p.p_buf; par_me := i
+(* give the turn back and wait for a token of kind [kind] *)
+let wait_turn (me : int) (kind : string) =
+  Mutex.lock pm;
+  save_part me;
+  !parts.(me).p_want <- kind;
+  turn := -1; Condition.broadcast pc;
+  while !turn <> me && not !par_abort do Condition.wait pc pm done;
+  if !par_abort then (Mutex.unlock pm; raise Abort_par);
+  load_part me;
+  Mutex.unlock pm
+
 exception Crashed
 let crash_at : int option ref = ref None
 let run_prog (p : 'a prog) (o : oracle) : 'a * event list =
@@ -179,6 +217,23 @@ let run_prog (p : 'a prog) (o : oracle) : 'a * event list =
     (* the process is dead: its descriptors are gone *)
     world := { !world with w_fs = { !world.w_fs with fds = [] } };
     raise Crashed
+  | None when !par_on ->
+    let me = !par_me in
+    let all = ref [] in
+    let apply (((p', w'), o'), evs) w0 o0 =
+      world := w'; draws := o'.o_draws; shard_draws := o'.o_shards;
+      print_events w0 o0 evs; all := !all @ evs; (p', o') in
+    wait_turn me "b";
+    let w0 = !world in
+    let o0 = { o with o_draws = !draws; o_shards = !shard_draws } in
+    let cur = ref (apply (settle p w0 o0) w0 o0) in
+    while not (finished (fst !cur)) do
+      wait_turn me "c";
+      let w0 = !world in
+      let o0 = { (snd !cur) with o_draws = !draws; o_shards = !shard_draws } in
+      cur := apply (slot (fst !cur) w0 o0) w0 o0
+    done;
+    (match fst !cur with Ret a -> (a, !all) | _ -> failwith "unfinished")
   | None ->
     let (((a, w'), o'), evs) = run p start { o with o_draws = !draws; o_shards = !shard_draws } in
     world := w'; draws := o'.o_draws; shard_draws := o'.o_shards;
@@ -228,16 +283,16 @@ let plant (p : path) (content : n list) (mode : int) (mtime : z) (atime : z) =
 
 let snapshot () =
   let f = !world.w_fs in
-  print_string "SNAP begin\n";
+  Buffer.add_string !obuf "SNAP begin\n";
   let ents = List.sort compare (List.map (fun (p, i) -> (string_of_path p, i)) f.names) in
   List.iter (fun (ps, i) ->
       match inode_of f i with
       | None -> ()
       | Some x ->
-        if x.i_dir then Printf.printf "F %s d 755 2 - %s %s -\n" ps (string_of_z x.i_mtime) (string_of_z x.i_atime)
-        else Printf.printf "F %s f %o %d %d %s %s %s ino=%d\n" ps (int_of_n x.i_mode) (int_of_nat x.i_nlink)
+        if x.i_dir then pf "F %s d 755 2 - %s %s -\n" ps (string_of_z x.i_mtime) (string_of_z x.i_atime)
+        else pf "F %s f %o %d %d %s %s %s ino=%d\n" ps (int_of_n x.i_mode) (int_of_nat x.i_nlink)
             (List.length x.i_data) (string_of_z x.i_mtime) (string_of_z x.i_atime) (show x.i_data) (int_of_nat i)) ents;
-  print_string "SNAP end\n"
+  Buffer.add_string !obuf "SNAP end\n"
 
 type wcfg = WNone | WPlain of n | WSharded of n * n
 type rcfg = RPlain of int | RSharded of int * n
@@ -246,8 +301,7 @@ let run () =
   let writer = ref WNone and readers = ref [] and checker = ref "none" and autosync = ref true in
   let umask = ref 0o022 in
   let nhandles = ref 1 in
-  let step = ref 0 and stage_ctr = ref 0 in
-  let cur_oracle = ref None in
+  let main_ps = (ref 0, ref 0, ref None, ref "") in
   let base_oracle () = { o_times = []; o_draws = []; o_shards = []; o_fresh = []; o_orders = []; o_fault = None;
                          o_ncalls = O; o_gran = z_of_int 1; o_atime = Relatime } in
   let front_w () = match !writer with
@@ -261,9 +315,8 @@ let run () =
     | "count" -> Some (chk_count false) | "counterr" -> Some (chk_count true) | _ -> None in
   let cfg h = { s_handle = n_of_int h; s_writer = front_w (); s_readers = fronts_r (); s_checker = chk ();
                 s_autosync = !autosync; s_systmp = [cs "systmp"] } in
-  (try
-     while true do
-       let line = input_line stdin in
+  let par_lines : (int * string) list ref = ref [] in
+  let rec handle (step, stage_ctr, cur_oracle, stage_tag) line =
        let f = Array.of_list (List.filter (fun s -> s <> "") (String.split_on_char ' ' line)) in
        if Array.length f > 0 && f.(0).[0] <> '#' then
          match f.(0) with
@@ -274,6 +327,61 @@ let run () =
          | "autosync" -> autosync := (f.(1) = "1")
          | "umask" -> umask := int_of_string ("0o" ^ f.(1))
          | "handles" -> nhandles := int_of_string f.(1)
+         | "stagetag" -> stage_tag := f.(1)
+         | "par" -> par_lines := []
+         | "pp" ->
+           let i = int_of_string f.(1) in
+           let k = String.index_from line (String.index line ' ' + 1) ' ' in
+           par_lines := !par_lines @ [ (i, String.sub line (k + 1) (String.length line - k - 1)) ]
+         | "sched" ->
+           let n = 1 + List.fold_left (fun a (i, _) -> max a i) 0 !par_lines in
+           parts := Array.init n (fun _ -> { p_counter = N0; p_loads = []; p_draws = []; p_shards = []; p_seq = 0;
+                                             p_buf = Buffer.create 4096; p_want = "start"; p_done = false });
+           let main_buf = !obuf in
+           let saved_world = !world in
+           par_on := true; par_abort := false;
+           let body i () =
+             (try
+                let ps = (ref 0, ref 0, ref None, ref "") in
+                List.iter (fun (j, l) -> if j = i then handle ps l) !par_lines
+              with Abort_par -> () | e -> Buffer.add_string !parts.(i).p_buf ("PARERROR " ^ Printexc.to_string e ^ "\n"));
+             Mutex.lock pm; save_part i; !parts.(i).p_done <- true; !parts.(i).p_want <- "done"; turn := -1; Condition.broadcast pc; Mutex.unlock pm in
+           let give i =
+             Mutex.lock pm; turn := i; Condition.broadcast pc;
+             while !turn <> -1 do Condition.wait pc pm done; Mutex.unlock pm in
+           (* start the threads one at a time: each runs its configuration lines up to its first operation *)
+           let ths = Array.init n (fun i ->
+               Mutex.lock pm; load_part i; turn := i; Mutex.unlock pm;
+               let t = Thread.create (body i) () in
+               Mutex.lock pm; while !turn <> -1 do Condition.wait pc pm done; Mutex.unlock pm; t) in
+           let mismatch = ref None in
+           let ntok = ref 0 in
+           (try
+              for k = 1 to Array.length f - 1 do
+                let tok = f.(k) in
+                let l = String.length tok in
+                let (i, kind) = (match tok.[l - 1] with
+                    | 'b' -> (int_of_string (String.sub tok 0 (l - 1)), "b")
+                    | 'r' -> (int_of_string (String.sub tok 0 (l - 1)), "r")
+                    | _ -> (int_of_string tok, "c")) in
+                if i >= n || !parts.(i).p_want <> kind then begin
+                  mismatch := Some (Printf.sprintf "token %d (%s): participant %d is waiting for %s" k tok i (if i < n then !parts.(i).p_want else "nothing"));
+                  raise Exit end;
+                incr ntok;
+                give i
+              done
+            with Exit -> ());
+           (* anything still waiting did not follow the schedule *)
+           Mutex.lock pm;
+           Array.iteri (fun i p -> if not p.p_done && !mismatch = None then
+                           mismatch := Some (Printf.sprintf "schedule exhausted: participant %d still waiting for %s" i p.p_want)) !parts;
+           par_abort := true; Condition.broadcast pc; Mutex.unlock pm;
+           Array.iter Thread.join ths;
+           par_on := false; par_me := -1;
+           obuf := main_buf;
+           world := { !world with w_counter = saved_world.w_counter; w_loads = saved_world.w_loads };
+           Array.iteri (fun i p -> pf "PART %d begin\n" i; Buffer.add_buffer !obuf p.p_buf; pf "PART %d end\n" i) !parts;
+           (match !mismatch with Some m -> pf "SCHEDMISMATCH %s\n" m | None -> pf "SCHEDOK %d\n" !ntok)
          | "build" -> ()
          | "mkdir" -> mkdirs (path_of_string f.(1))
          | "mkdirt" -> mkdirs (path_of_string f.(1)); set_dir_time (path_of_string f.(1)) (z_of_string f.(2))
@@ -320,7 +428,7 @@ let run () =
            let kind = f.(2) in
            let o = match !cur_oracle with Some o -> o | None -> base_oracle () in
            cur_oracle := None;
-           Printf.printf "# step %d begin %s\n" !step kind;
+           pf "# step %d begin %s\n" !step kind;
            let fds_before = count_fds () in
            let key i = { k_name = cs (unesc f.(i)); k_hash = n_of_string f.(i + 1); k_sec = n_of_string f.(i + 2) } in
            let held = ref None in
@@ -361,7 +469,7 @@ let run () =
              | "set" | "put" ->
                incr stage_ctr;
                let chunks = if Array.length f > 7 then int_of_string f.(7) else 1 in
-               let src = [cs "stage"; cs (Printf.sprintf "src%d" !stage_ctr)] in
+               let src = [cs "stage"; cs (Printf.sprintf "src%s%d" !stage_tag !stage_ctr)] in
                let (r, e) = run_prog (client_set_path (kind = "set") (cfg h) (key 3) src mode666 (chunks_of (expand f.(6)) chunks)) o in
                evs_all := e; unit_line r src
              | "pset" | "pput" | "sset" | "sput" ->
@@ -369,14 +477,14 @@ let run () =
                let fr = (match front_w () with Some x -> x | None -> failwith "no writer") in
                let (k, ci) = if kind.[0] = 'p' then ({ k_name = cs (unesc f.(3)); k_hash = N0; k_sec = N0 }, 4) else (key 3, 6) in
                let chunks = if Array.length f > ci + 1 then int_of_string f.(ci + 1) else 1 in
-               let src = [cs "stage"; cs (Printf.sprintf "src%d" !stage_ctr)] in
+               let src = [cs "stage"; cs (Printf.sprintf "src%s%d" !stage_tag !stage_ctr)] in
                let which = (kind = "pset" || kind = "sset") in
                let (r, e) = run_prog (client_front_write which (n_of_int h) fr k src mode666 (chunks_of (expand f.(ci)) chunks)) o in
                evs_all := e; unit_line r src
              | "set_temp" | "put_temp" ->
                incr stage_ctr;
                let chunks = if Array.length f > 7 then int_of_string f.(7) else 1 in
-               let src = [cs "stage"; cs (Printf.sprintf "stg%d" !stage_ctr)] in
+               let src = [cs "stage"; cs (Printf.sprintf "stg%s%d" !stage_tag !stage_ctr)] in
                let (r, e) = run_prog (client_set_temp (kind = "set_temp") (cfg h) (key 3) src (chunks_of (expand f.(6)) chunks)) o in
                evs_all := e; unit_line r src
              | "ensure" | "gou" ->
@@ -413,17 +521,36 @@ let run () =
                evs_all := e;
                (match r with Ok p -> "OkPath " ^ string_of_path p | Err e -> io_line e | Panic -> "Panic")
              | k -> "BadOp " ^ k) with Crashed -> "Crashed" in
-           Printf.printf "# step %d returned\n" !step;
+           pf "# step %d returned\n" !step;
+           let late = ref "" in
+           if !par_on then begin
+             wait_turn !par_me "r";
+             (match !held with
+              | Some fd ->
+                let fs = !world.w_fs in
+                (match fd_of fs fd with
+                 | Some x -> (match inode_of fs x.fd_ino with Some y -> late := " late=" ^ show y.i_data | None -> late := " late=stale")
+                 | None -> late := " late=badfd")
+              | None -> ())
+           end;
            let fds_held = count_fds () in
            (match !held with
-            | Some fd -> let (_, _) = run_prog (call1 (CClose fd)) (base_oracle ()) in ()
+            | Some fd ->
+              if !par_on then begin let (f', _) = sem !world.w_fs env0 (CClose fd) in world := { !world with w_fs = f' } end
+              else begin let (_, _) = run_prog (call1 (CClose fd)) (base_oracle ()) in () end
             | None -> ());
-           Printf.printf "# step %d end\n" !step;
+           pf "# step %d end\n" !step;
            let fds_after = count_fds () in
            let ms = marks !evs_all in
            let chks = List.filter (fun (t, _) -> t = 1) ms in
            let chk_s = String.concat "," (List.map (fun (_, pl) -> match pl with [a; b] -> show a ^ "~" ^ show b | _ -> "?") chks) in
-           Printf.printf "R %d %s %s fds=%d/%d/%d chk=%d[%s]\n" !step kind res_line fds_before fds_held fds_after (List.length chks) chk_s
-         | _ -> ()
+           pf "R %d %s %s fds=%d/%d/%d chk=%d[%s]%s\n" !step kind res_line fds_before fds_held fds_after (List.length chks) chk_s !late
+         | _ -> () in
+  (try
+     while true do
+       let line = input_line stdin in
+       handle main_ps line;
+       flush_obuf ()
      done
-   with End_of_file -> ())
+   with End_of_file -> ());
+  flush_obuf ()
